@@ -22,6 +22,8 @@ pub enum Profile {
     Mixed,
     /// keep adding entries to one directory until it has to grow (several times)
     Grow,
+    /// mkdir / create inside a directory that is exactly full, on a volume with 0-3 free clusters
+    Edge,
 }
 
 pub const MODES: [Mode; 6] = [Mode::ReadOnly, Mode::ReadWriteAppend, Mode::ReadWriteTruncate, Mode::ReadWriteCreate, Mode::ReadWriteCreateOrTruncate, Mode::ReadWriteCreateOrAppend];
@@ -126,6 +128,7 @@ impl Engine {
             Profile::Matrix => [40, 14, 2, 8, 1, 2, 10, 5, 6, 3, 4, 2, 1, 1, 0, 0, 0, 0, 1],
             Profile::Mixed => [12, 8, 10, 14, 6, 4, 6, 4, 5, 4, 3, 4, 3, 3, 1, 2, 2, 1, 3],
             Profile::Grow => [40, 30, 1, 4, 0, 2, 6, 6, 4, 1, 2, 3, 0, 0, 0, 0, 0, 0, 1],
+            Profile::Edge => [18, 16, 0, 3, 0, 6, 8, 30, 1, 0, 1, 2, 0, 0, 0, 3, 0, 0, 1],
         };
         for _ in 0..40 {
             let k = rng.weighted(&w);
@@ -137,7 +140,7 @@ impl Engine {
                     let fs = free_slot(&self.m.hfiles, maxf);
                     let mode = *rng.pick(&MODES);
                     let existing = if profile == Profile::Matrix { 60 } else { 50 };
-                    if profile == Profile::Grow && rng.chance(4, 5) {
+                    if (profile == Profile::Grow || profile == Profile::Edge) && rng.chance(4, 5) {
                         // a fresh name every time, preferably in a sub-directory: the directory must grow
                         let ds = self.m.hdirs.iter().enumerate().filter(|(_, h)| h.as_ref().map(|h| !self.m.nodes[h.node].is_root).unwrap_or(false)).map(|(i, _)| i).next().unwrap_or(ds);
                         let dir = self.m.hdirs[ds].as_ref().unwrap().node;
@@ -220,6 +223,10 @@ impl Engine {
                 7 => {
                     let Some(ds) = open_idx(&self.m.hdirs, rng) else { continue };
                     let dir = self.m.hdirs[ds].as_ref().unwrap().node;
+                    if profile == Profile::Edge && rng.chance(4, 5) {
+                        let ds = self.m.hdirs.iter().enumerate().filter(|(_, h)| h.as_ref().map(|h| !self.m.nodes[h.node].is_root).unwrap_or(false)).map(|(i, _)| i).next().unwrap_or(ds);
+                        return Op::Mkdir { fl, ds, name: format!("M{}", self.ops.len()) };
+                    }
                     let name = if rng.chance(2, 3) { rng.pick(&["NEWDIR0", "NEWDIR1", "nd2", "ND3", "SUB0"]).to_string() } else { pick_name(rng, self, dir, 40) };
                     return Op::Mkdir { fl, ds, name };
                 }
